@@ -395,5 +395,5 @@ def classify(f, ctx):
     exp = multi.expected(case, world)
     r = KF.attribute(f, lambda caching: multi.evaluate(case, world, caching=caching)[0], exp,
                      mentioned_not_selected=bool(multi.vars_mentioned_not_selected(case)),
-                     compare=lambda got, e: multi.compare(case, got, e))
+                     compare=lambda got, e: multi.compare(case, got, e), nvars=len(case["kinds"]))
     return r
